@@ -87,6 +87,10 @@ const OpInfo op_info[OP_NOPS] = {
     {"q120_b_to_znx128_simple", 2, "oi", L1, -1, OP_NONE, false},
     {"q120_add_bbb_simple", 3, "oii", L1, -1, OP_NONE, false},
     {"q120_add_ccc_simple", 3, "oii", L1, -1, OP_NONE, false},
+    {"q120x2_extract_1blk_from_q120b_ref", 2, "oi", L1, -1, OP_NONE, false},
+    {"q120x2_extract_1blk_from_q120c_ref", 2, "oi", L1, -1, OP_NONE, false},
+    {"q120x2_extract_1blk_from_contiguous_q120b_ref", 2, "oi", L1, -1, OP_NONE, false},
+    {"q120x2b_save_1blk_to_q120b_ref", 2, "xi", L1, -1, OP_NONE, false},
     // simple twins
     {"reim_fft_simple", 1, "x", S2, -1, OP_REIM_FFT, false},
     {"reim_ifft_simple", 1, "x", S2, -1, OP_REIM_IFFT, false},
@@ -112,6 +116,8 @@ const OpInfo op_info[OP_NOPS] = {
     {"new/delete_svp_ppol", 0, "", LC, -1, OP_NONE, false},
     {"new/delete_vmp_pmat", 0, "", LC, -1, OP_NONE, false},
     {"new/delete_precomp", 0, "", LC, -1, OP_NONE, false},
+    {"spqlios_alloc/spqlios_free", 0, "", LC, -1, OP_NONE, false},
+    {"new_*_fft_precomp with buffers/get_buffer/delete", 0, "", LC, -1, OP_NONE, false},
 };
 
 static inline const MODULE* MOD(const std::vector<void*>& mods, int i) { return (const MODULE*)mods[i]; }
@@ -306,6 +312,10 @@ void op_invoke(const Program& P, const Call& c, const std::vector<void*>& mods, 
     case OP_Q120_B_TO_ZNX128: q120_b_to_znx128_simple(c.p[0], (__int128_t*)ptr[0], (q120b*)ptr[1]); break;
     case OP_Q120_ADD_BBB: q120_add_bbb_simple(c.p[0], (q120b*)ptr[0], (q120b*)ptr[1], (q120b*)ptr[2]); break;
     case OP_Q120_ADD_CCC: q120_add_ccc_simple(c.p[0], (q120c*)ptr[0], (q120c*)ptr[1], (q120c*)ptr[2]); break;
+    case OP_Q120X2_EXTRACT_B: q120x2_extract_1blk_from_q120b_ref(c.p[0], c.p[1], (q120x2b*)ptr[0], (const q120b*)ptr[1]); break;
+    case OP_Q120X2_EXTRACT_C: q120x2_extract_1blk_from_q120c_ref(c.p[0], c.p[1], (q120x2c*)ptr[0], (const q120c*)ptr[1]); break;
+    case OP_Q120X2_EXTRACT_CONTIG: q120x2_extract_1blk_from_contiguous_q120b_ref(c.p[0], c.p[2], c.p[1], (q120x2b*)ptr[0], (const q120b*)ptr[1]); break;
+    case OP_Q120X2_SAVE: q120x2b_save_1blk_to_q120b_ref(c.p[0], c.p[1], (q120b*)ptr[0], (const q120x2b*)ptr[1]); break;
 
     case OP_REIM_FFT_SIMPLE: reim_fft_simple(sm, ptr[0]); break;
     case OP_REIM_IFFT_SIMPLE: reim_ifft_simple(sm, ptr[0]); break;
@@ -334,6 +344,51 @@ void op_invoke(const Program& P, const Call& c, const std::vector<void*>& mods, 
     case OP_LIFE_BIG: delete_vec_znx_big(new_vec_znx_big(m, c.p[0])); break;
     case OP_LIFE_PPOL: delete_svp_ppol(new_svp_ppol(m)); break;
     case OP_LIFE_PMAT: delete_vmp_pmat(new_vmp_pmat(m, c.p[0], c.p[1])); break;
+    case OP_LIFE_ALLOC: {
+      // the library's public allocation layer
+      void* a = c.p[1] ? spqlios_alloc_custom_align(c.p[1], c.p[0]) : spqlios_alloc(c.p[0]);
+      if (c.p[0]) memset(a, 0x5a, c.p[0]);
+      spqlios_free(a);
+      break;
+    }
+    case OP_LIFE_FFT_BUFFERS: {
+      // tables created with built-in scratch buffers: every buffer is BUF_SIZE bytes, usable as transform data
+      const uint32_t mm = (uint32_t)c.p[1], nb = (uint32_t)c.p[2];
+      if (c.p[0] == 0) {
+        REIM_FFT_PRECOMP* t = new_reim_fft_precomp(mm, nb);
+        for (uint32_t i = 0; i < nb; ++i) {
+          double* b = reim_fft_precomp_get_buffer(t, i);
+          for (uint32_t j = 0; j < 2 * mm; ++j) b[j] = (double)(j + i);
+          reim_fft(t, b);
+        }
+        delete_reim_fft_precomp(t);
+      } else if (c.p[0] == 1) {
+        REIM_IFFT_PRECOMP* t = new_reim_ifft_precomp(mm, nb);
+        for (uint32_t i = 0; i < nb; ++i) {
+          double* b = reim_ifft_precomp_get_buffer(t, i);
+          for (uint32_t j = 0; j < 2 * mm; ++j) b[j] = (double)(j + i);
+          reim_ifft(t, b);
+        }
+        delete_reim_ifft_precomp(t);
+      } else if (c.p[0] == 2) {
+        CPLX_FFT_PRECOMP* t = new_cplx_fft_precomp(mm, nb);
+        for (uint32_t i = 0; i < nb; ++i) {
+          double* b = (double*)cplx_fft_precomp_get_buffer(t, i);
+          for (uint32_t j = 0; j < 2 * mm; ++j) b[j] = (double)(j + i);
+          cplx_fft(t, b);
+        }
+        delete_cplx_fft_precomp(t);
+      } else {
+        CPLX_IFFT_PRECOMP* t = new_cplx_ifft_precomp(mm, nb);
+        for (uint32_t i = 0; i < nb; ++i) {
+          double* b = (double*)cplx_ifft_precomp_get_buffer(t, i);
+          for (uint32_t j = 0; j < 2 * mm; ++j) b[j] = (double)(j + i);
+          cplx_ifft(t, b);
+        }
+        delete_cplx_ifft_precomp(t);
+      }
+      break;
+    }
     case OP_LIFE_TABLE: {
       TableSpec t;
       t.kind = (int)c.p[0];
